@@ -564,9 +564,9 @@ var _ = packages.NeedName
 // writes one of their fields or updates a key map changes which node (or
 // which key value) is addressed.
 var c02PathWriterAllowed = map[string]string{
-	"PathStack.PushElem → Path.AddPathElem":           "one element per step, appended to the path on top of the stack (R02.3)",
+	"PathStack.PushElem → Path.AddPathElem":          "one element per step, appended to the path on top of the stack (R02.3)",
 	"ProgBuilder.CodePathOper → Path.SetIsRootBased": "the '/' arm marks the path absolute (R02.2)",
-	"ProgBuilder.PredicatesEnd → PathElem.AddKey":     "attaches the collected predicate keys to the last element (R02.4)",
+	"ProgBuilder.PredicatesEnd → PathElem.AddKey":    "attaches the collected predicate keys to the last element (R02.4)",
 }
 
 func c02PathWriters(w *World, r *Report) {
